@@ -31,6 +31,7 @@ type Group struct {
 	AbstractConc bool     // ignore go statements / opaque channels
 	Own          bool     // ownership discipline of deep copies (C17)
 	Narrow       bool     // value-changing integer conversions must be provably exact (C13)
+	Share        bool     // sharing discipline of codecs (C18)
 }
 
 var safetyClasses = []string{"post", "unwind", "alloc", "index", "nil", "typeassert", "div", "shift", "panic", "pre", "auto-inv-init", "auto-inv-step", "auto-decreases", "decreases", "inv-init", "inv-step", "cover", "frame"}
@@ -192,6 +193,21 @@ func init() {
 		}})
 }
 
+func init() {
+	reg(&PropSpec{ID: "C18", Title: "Codecs can be shared by concurrent goroutines (no call writes shared state)", DesignRef: "DESIGN.md §11 C18",
+		Groups: []Group{
+			{Funcs: `^(\(\*?)?(primitive|datatype|message|frame|segment|crc|compression/lz4|compression/snappy|datacodec)\.`,
+				Except: `(^|\.)init(#\d+)?$|\.lemma[A-Z]|^crc\.crc24Ref$|\)\.(DeepCopyInto|DeepCopy|DeepCopyMessage|DeepCopyDataType)$|^\(\*frame\.codec\)\.SetBodyCompressor$|^primitive\.ParseUuid$|^\(\*primitive\.UUID\)\.String$|^datacodec\.(read|write)(Collection|Map|Tuple|Udt)$`,
+				Share: true, Classes: []string{"share"}},
+		},
+		Assume: []string{
+			"PRECONDITION (the property's 'distinct frames or values'): memory reachable from a call's non-codec arguments (frame, message, value, destination, reader, writer) is not reachable from any codec, compressor, data-type object, package-level variable or another goroutine's arguments; own(x) is assumed for those arguments and propagated through loads from pre-existing owned objects",
+			"what is proved: every store, map update, in-place append, copy, stream write and callee write-permission in the listed functions goes to memory the call allocated itself or to caller-owned memory - never to the shared receiver (types implementing the codec/compressor/DataType interfaces), to a package-level variable or to anything loaded from them; hence concurrent calls share only memory nobody writes and each call's result is the sequential function of its own arguments",
+			"NOT covered: interleavings as such and the race detector's view; functions that use package reflect (collection, map, tuple and UDT codecs, injectors/extractors, PreferredGoType) are outside the subset and listed under rejected/outside; third-party code (lz4's internal pools, snappy) and the standard library are trusted to be goroutine-safe; (*frame.codec).SetBodyCompressor is a configuration call that writes its receiver by design and is excluded; package initialisers are excluded",
+			"callees not executed in place may write only through arguments that the call site proves fresh or caller-owned; arguments a callee provably never writes through (syntactic read-only analysis, conservative) and arguments of shared static type (never writable anywhere) are exempt",
+		}})
+}
+
 var lemmaClasses = []string{"post", "pre", "cover", "frame", "inv-init", "inv-step", "unwind"}
 
 func init() {
@@ -240,6 +256,9 @@ func (p *PropSpec) Select(w *World) map[string]*Group {
 		}
 		for _, k := range w.ListFuncs() {
 			if !re.MatchString(k) || (ex != nil && ex.MatchString(k)) {
+				continue
+			}
+			if g.Share && (usesReflect(w.Funcs[k]) || w.Funcs[k].Synthetic != "") {
 				continue
 			}
 			if g.OnlyCt {
